@@ -13,7 +13,7 @@ use proptest::prelude::*;
 use serde::{Deserialize, Serialize};
 use std::rc::Rc;
 
-pub const RULE: &str = "(1) every built-in (all names of get_built_in_function_idents() except print / time_now) applied to every argument tuple of a boundary pool (NaN, +-inf, +-0, 2^53, +-1e30, 1e15, fractions, negatives; empty / ASCII / non-ASCII / numeric-looking / unit strings; empty, NaN-containing, nested, string and 30-element mixed lists; records; well- and ill-typed lambdas of arity 0/1/2/rest; built-ins as values): exhaustive for 0, 1 and 2 arguments, a 14-value sub-pool for 3 arguments, random tuples for 3-5 arguments; (2) grammar-generated typed programs with ill-typed noise and JSON inputs incl. __blots_function objects whose source is generated, mutated, blank or garbage; (2b) sessions of separately parsed and evaluated texts sharing heap and bindings (REPL / wasm style) in which long, late-failing functions (defined in one text or arriving as JSON inputs, with non-ASCII text before the failing position) are called from short later texts; (2c) inputs maps in the serde form of SerializableValue (how the wasm driver receives inputs) with function bodies that are blank, comments, statements, garbage or late-failing, converted with to_value and called; (3b) each nesting construct (curried lambdas, applied lambdas, conditionals, lists, records, calls, parenthesised operators, do-blocks, via-lambdas, commented lists under lambdas, negations) nested 1..48 deep around a short and an over-long payload; (3d) every parameter-list shape (0-4 required / optional parameters in any order, with and without a rest parameter) called with 0-6 arguments directly, through spreads and by every higher-order form; (3f) the postfix operators (`!`, index, field) on every whole number 0..200 and on every pool value; (3e) twenty-six nesting constructs (lambdas, calls, assignments, conditionals, lists, records, do-blocks, pipelines under one another) 1..64 levels deep, left unfinished and finished: the parser must accept or reject each within 5 000 000 rule calls (pest's call limit used as a deterministic step counter; the repaired grammar needs a few thousand); (3c) failing one-line programs of every length from a few bytes to 6 KB (error reports of every size); (3) token- and byte-level mutants of the repository's examples, benches and README code blocks; (4) random UTF-8 weighted to the grammar's alphabet, up to 4 KiB, bracket depth <= 64. Every stage runs on each: get_pairs, AST conversion with and without comments, evaluation of every statement, validate / serialise / stringify of every result and binding, Display of every error plus span-inside-own-source, format_expr at four widths, the WASM formatting driver, expr_to_source, and for 2% the real CLI (file, -i). Violation = panic, abort, signal, exit 101, or an error span outside its text. Non-trivial = the case reached evaluation or is an enumerated built-in call; distinct by input text.";
+pub const RULE: &str = "(1) every built-in (all names of get_built_in_function_idents() except print / time_now) applied to every argument tuple of a boundary pool (NaN, +-inf, +-0, 2^53, +-1e30, 1e15, fractions, negatives; empty / ASCII / non-ASCII / numeric-looking / unit strings; empty, NaN-containing, nested, string and 30-element mixed lists; records; well- and ill-typed lambdas of arity 0/1/2/rest; built-ins as values): exhaustive for 0, 1 and 2 arguments, a 14-value sub-pool for 3 arguments, random tuples for 3-5 arguments; (2) grammar-generated typed programs with ill-typed noise and JSON inputs incl. __blots_function objects whose source is generated, mutated, blank or garbage; (2b) sessions of separately parsed and evaluated texts sharing heap and bindings (REPL / wasm style) in which long, late-failing functions (defined in one text or arriving as JSON inputs, with non-ASCII text before the failing position) are called from short later texts; (2c) inputs maps in the serde form of SerializableValue (how the wasm driver receives inputs) with function bodies that are blank, comments, statements, garbage or late-failing, converted with to_value and called; (3b) each nesting construct (curried lambdas, applied lambdas, conditionals, lists, records, calls, parenthesised operators, do-blocks, via-lambdas, commented lists under lambdas, negations) nested 1..48 deep around a short and an over-long payload; (3d) every parameter-list shape (0-4 required / optional parameters in any order, with and without a rest parameter) called with 0-6 arguments directly, through spreads and by every higher-order form; (3f) the postfix operators (`!`, index, field) on every whole number 0..200 and on every pool value; (3g) numeral spellings at the edge of the literal grammar (11 numerals x 23 glue strings of signs / underscores / dots / exponent and radix markers x 5 tails) as a bound value, list item, lambda body and function input; (3h) recursion to just below the call-depth limit, and into it, with the recursive call nested 40 / 60 levels deep in its body (within the lexical bound of 64), in-process and through the release CLI; (3e) twenty-six nesting constructs (lambdas, calls, assignments, conditionals, lists, records, do-blocks, pipelines under one another) 1..64 levels deep, left unfinished and finished: the parser must accept or reject each within 5 000 000 rule calls (pest's call limit used as a deterministic step counter; the repaired grammar needs a few thousand); (3c) failing one-line programs of every length from a few bytes to 6 KB (error reports of every size); (3) token- and byte-level mutants of the repository's examples, benches and README code blocks; (4) random UTF-8 weighted to the grammar's alphabet, up to 4 KiB, bracket depth <= 64. Every stage runs on each: get_pairs, AST conversion with and without comments, evaluation of every statement, validate / serialise / stringify of every result and binding, Display of every error plus span-inside-own-source, format_expr at four widths, the WASM formatting driver, expr_to_source, and for 2% the real CLI (file, -i). Violation = panic, abort, signal, exit 101, or an error span outside its text. Non-trivial = the case reached evaluation or is an enumerated built-in call; distinct by input text.";
 pub const ASSUMPTIONS: &[&str] = &[
     "resource exhaustion is not a crash: range spans in (2*10^6, 2^32], error-swallowing recursive sort_by callbacks and unbounded recursion through slow paths are excluded by construction or counted as inconclusive (allocation-failure marker, per-case watchdog)",
     "the WASM evaluate glue cannot run natively (JsValue); everything it calls in blots-core is covered, including the conversion of serde-deserialised inputs (2c)",
@@ -943,6 +943,36 @@ pub fn run(ctx: &mut Ctx) {
         post.push(Case::Program { text: format!("v = {}\nb = v[0]\nc = v.a\nd = v[-1]\ne = v[0.5]", v), inputs: "{}".into(), cli: false });
     }
     ctx.run_enum(&Pipeline, post.into_iter(), false);
+    // (3g) numeral spellings at the edge of the literal grammar (signs, underscores, dots and exponent
+    // markers in every neighbouring position): whatever the grammar makes of them, every stage returns
+    let mut numerals = Vec::new();
+    let pieces = ["1", "0", "10_000", "7", ".5", "1.5", "1e3", "2E-3", "0x1F", "0b101", "9007199254740993"];
+    let glue = ["_", "__", "_-", "_+", "-", "+", ".", "..", "e", "e-", "e+", "E_", "_.", "._", "_e", "e_", "x", "b", "_x", "-_", "+_", "e.", ".e"];
+    for a in pieces {
+        for g in glue {
+            for b in ["2", "5", "1.5e3", "_", ""] {
+                let lit = format!("{}{}{}", a, g, b);
+                numerals.push(Case::Program { text: format!("v = {}\nw = [{}, -{}] via (q => q * 3_000)\nf = x => x * {}", lit, lit, lit, lit), inputs: format!("{{\"f\": {{\"__blots_function\": \"x => x * {}\"}}}}", lit), cli: (a.len() + g.len() + b.len()) % 7 == 0 });
+            }
+        }
+    }
+    ctx.run_enum(&Pipeline, numerals.into_iter(), false);
+    // (3h) recursion that stops just below the call-depth limit (and one that runs into it) with the
+    // recursive call nested 40 / 60 levels deep in its body - within the lexical bound of 64 -
+    // through the release CLI as well: the native stack must hold out
+    let mut deep = Vec::new();
+    for nesting in [40usize, 60] {
+        for kind in 0..2 {
+            let mut body = String::from("f(n - 1)");
+            for _ in 0..nesting {
+                body = if kind == 0 { format!("(1 + {})", body) } else { format!("[{}][0]", body) };
+            }
+            for start in [995u32, 5000] {
+                deep.push(Case::Program { text: format!("f = n => if n == 0 then 0 else {}\noutput r = f({})\n", body, start), inputs: "{}".into(), cli: true });
+            }
+        }
+    }
+    ctx.run_enum(&Pipeline, deep.into_iter(), false);
     // (3e) nested constructs left unfinished: the work to reject them must not explode with depth
     let mut work = Vec::new();
     for unit in 0..PARSE_UNITS.len() as u8 {
